@@ -20,7 +20,7 @@ RULE = (
     "(unpinned terminals, zero current) vs (no terminals). non-trivial = >= 10 update returns checked on a device "
     "with >= 2 terminal sites; distinct = distinct spec"
 )
-REQUIRED_COUNTERS = ["pin_value_checks", "pinned_row_checks", "free_site_checks", "unpinned_equals_noterminal_checks"]
+REQUIRED_COUNTERS = ["pin_value_checks", "pinned_row_checks", "free_site_checks", "unpinned_equals_noterminal_checks", "seeded_runs"]
 CASE_TIMEOUT = {"quick": 600, "thorough": 1500}
 ASSUMPTIONS = ["terminal site membership is taken from Device.terminal_info() (C07)"]
 
@@ -41,6 +41,15 @@ def gen_cases(tier, seed):
         Ik = ["none", "const", "callable", "const"][(k // 2) % 4]
         drive = {"A": S.field_spec(rng, dev, o, Ak, b=0.2), "currents": S.current_spec(rng, dev, o, Ik, strength=0.15)}
         cases.append({"kind": "pin", "device": dev, "options": o, "drive": drive, "monitors": ["pin"], "cost": 30 if scr else 6})
+    ns = 4 if tier == "quick" else 24
+    for k in range(ns):
+        # a run continued from a seed solution whose terminal sites hold another value
+        nt = [2, 3][k % 2]
+        dev = zoo.gen_device(rng, n_terminals=nt, probes=0, size="small")
+        o = S.base_options(rng, adaptive=bool(k % 2), steps=40)
+        drive = {"A": S.field_spec(rng, dev, o, ["uniform", "zero"][k % 2], b=0.2), "currents": S.current_spec(rng, dev, o, ["const", "none"][(k // 2) % 2], strength=0.15)}
+        cases.append({"kind": "seeded", "device": dev, "options": o, "drive": drive, "monitors": ["pin"],
+                      "seed_terminal_psi": ["none", 1.0, 0.0, "none"][k % 4], "terminal_psi": [0.0, 0.5, "none", [0.3, 0.4]][k % 4], "cost": 10})
     m = 3 if tier == "quick" else 20
     for k in range(m):
         dev = zoo.gen_device(rng, n_terminals=[2, 3, 4][k % 3], probes=0, size="small")
@@ -57,6 +66,25 @@ def run_case(spec):
         out["classes"] = S.classes_of(spec)
         c = out["counters"]
         out["nontrivial"] = c.get("update_calls", 0) >= 10 and (c.get("pin_value_checks", 0) > 0 or c.get("free_site_checks", 0) > 0)
+        return out
+    if spec["kind"] == "seeded":
+        sp1 = copy.deepcopy(spec)
+        sp1["options"]["terminal_psi"] = spec["seed_terminal_psi"]
+        rr1 = sim.run_sim(sp1, [], keep_dir=True)
+        if rr1.refused:
+            return {"violations": [], "counters": {"refused_mesh": 1}, "classes": ["refused"], "nontrivial": False}
+        if rr1.exception is not None or rr1.solution is None:
+            return {"status": "harness_error", "error": "seed run failed: " + repr(rr1.exception)[:200]}
+        sp2 = copy.deepcopy(spec)
+        sp2["options"]["terminal_psi"] = spec["terminal_psi"]
+        out = S.run_sim_case(sp2, "C06", device=rr1.device, seed_solution=rr1.solution)
+        import shutil
+
+        shutil.rmtree(rr1.outdir, ignore_errors=True)
+        out["classes"] = ["seeded", f"seed_terminal_psi={spec['seed_terminal_psi']}", f"terminal_psi={spec['terminal_psi']}"]
+        c = out["counters"]
+        out["counters"]["seeded_runs"] = 1
+        out["nontrivial"] = c.get("update_calls", 0) >= 10
         return out
     # differential pair
     tms = []
